@@ -105,6 +105,11 @@ func genC13(cfg Config, ws *WorldSet, i, nctx int) C13Case {
 					}
 				}
 			}
+			if j > 0 && r.Chance(1, 6) {
+				// everything else took longer than any timeout the tree may have armed
+				p.TimersEarly = true
+				x.Dims["timers"] = "every timeout, deadline and timer fires at once"
+			}
 			x.Plan = p
 			x.Dims["marker"] = p.Markers[0]
 			x.Dims["clock"] = fmt.Sprint(p.ClockStart)
@@ -474,6 +479,18 @@ func shrinkC13(c C13Case) []C13Case {
 				p.StatDelaysUs = a.Plan.StatDelaysUs
 				x.Plan = &p
 				x.Dims["stat-delays"] = a.Dims["stat-delays"]
+			})
+		}
+		if b.Plan.TimersEarly != a.Plan.TimersEarly {
+			try(func(x *C13Ctx) {
+				p := *b.Plan
+				p.TimersEarly = a.Plan.TimersEarly
+				x.Plan = &p
+				if a.Dims["timers"] == "" {
+					delete(x.Dims, "timers")
+				} else {
+					x.Dims["timers"] = a.Dims["timers"]
+				}
 			})
 		}
 	}
